@@ -3,6 +3,7 @@ package main
 import (
 	"fmt"
 	"os"
+	"path/filepath"
 
 	"github.com/reedom/convergen/pkg/config"
 	"github.com/reedom/convergen/pkg/runner"
@@ -15,8 +16,29 @@ func main() {
 		os.Exit(1)
 	}
 
+	enterInputDir(&conf)
+
 	if err := runner.Run(conf); err != nil {
 		_, _ = fmt.Fprintln(os.Stderr, err.Error())
 		os.Exit(1)
 	}
+}
+
+// enterInputDir makes the configured paths absolute and changes to the directory of the
+// setup file. Loading the package and resolving the imports of the generated code consult
+// the working directory (to find the enclosing module); the result of a run should depend on
+// the sources only, not on where the command was started.
+func enterInputDir(conf *config.Config) {
+	abs := func(p string) string {
+		if p == "" {
+			return p
+		}
+		if a, err := filepath.Abs(p); err == nil {
+			return a
+		}
+		return p
+	}
+	conf.Input, conf.Output, conf.Log = abs(conf.Input), abs(conf.Output), abs(conf.Log)
+	// A missing directory is reported by the run itself.
+	_ = os.Chdir(filepath.Dir(conf.Input))
 }
